@@ -168,7 +168,7 @@ class Origins:
             ret = self.local(callee, 0, depth + 1, stack)
             sub = substitute(ret, callee.id, argt)
             if not has_top(sub) and size(sub) < 60:
-                return ("ret", tgt, sub, (body.id, bb))
+                return ("ret", tgt, sub, (body.id, bb), argt)
         return ("call", tgt, argt, (body.id, bb))
 
     # ---- callers: resolve a param through every call site ----
@@ -254,7 +254,7 @@ def project(term, proj):
         if k == "phi":
             return ("phi", tuple(_dedup([project(t, proj) for t in term[1]])))
         if k == "ret":
-            return ("ret", term[1], project(term[2], proj), term[3])
+            return ("ret", term[1], project(term[2], proj), term[3], term[4])
         if k == "proj":
             return ("proj", term[1], term[2] + proj)
         break
@@ -333,7 +333,7 @@ def show(term, depth=0):
     if k == "call":
         return "%s(%s)" % (term[1].split("::", 1)[-1] if "::" in term[1] else term[1], ", ".join(show(a, depth + 1) for a in term[2]))
     if k == "ret":
-        return "%s=>%s" % (term[1].split("::")[-1], show(term[2], depth + 1))
+        return "%s(%s)=>%s" % (term[1].split("::")[-1], ", ".join(show(a, depth + 1) for a in term[4]), show(term[2], depth + 1))
     if k == "agg":
         return "%s::%s{%s}" % (term[1].split("::")[-1], term[2], ", ".join("%s:%s" % (f, show(t, depth + 1)) for f, t in term[3]))
     if k == "tuple":
